@@ -161,8 +161,45 @@ class AH:
             self.ctx.violation('C08:shutdown', f'nodes left after shutdown: {sorted(self.b._succ)}', self.case())
 
 
+def reuse(ctx, opA, opB, opC):
+    """a result stays alive while its operand dies and is collected; another
+    function takes the freed number; the same operator is applied to it:
+    every live Function (the new result included) must denote its function"""
+    n = 3
+    h = AH(ctx, f'autoref reuse {opA} {opB} {opC}', n, reordering=False)
+    s, A = h.s, h.A
+    full = T.full(n)
+    x = h.reg(s.op(A, 'var', 0), T.var(0, n))
+    y = h.reg(s.op(A, 'var', 1), T.var(1, n))
+    z = h.reg(s.op(A, 'var', 2), T.var(2, n))
+    a = h.reg(s.op(A, 'fapply', opA, x, y), gen.conn(opA, h.live[x], h.live[y], full), 'a')
+    r = h.reg(s.op(A, 'fapply', opC, a, z), gen.conn(opC, h.live[a], h.live[z], full), 'r')
+    h.observe()
+    for d in (a, x, y):
+        s.op(A, 'drop', d)
+        h.live.pop(d, None)
+    s.op(A, 'gc')
+    h.observe()
+    x = h.reg(s.op(A, 'var', 0), T.var(0, n))
+    y = h.reg(s.op(A, 'var', 1), T.var(1, n))
+    c = h.reg(s.op(A, 'fapply', opB, x, y), gen.conn(opB, h.live[x], h.live[y], full), 'c')
+    t = h.reg(s.op(A, 'fapply', opC, c, z), gen.conn(opC, h.live[c], h.live[z], full),
+              'the operator applied to a function that took a freed number')
+    h.observe()
+    ctx.case(('autoref-reuse', opA, opB, opC), True)
+    ctx.count('reuse')
+    if h.ok:
+        h.finish()
+
+
 def run(ctx):
     q = ctx.quick
+    ops = ['and', 'or', 'implies', 'equiv']
+    for opA in ops:
+        for opB in ops:
+            for opC in (['and', 'or'] if q else ops):
+                if opA != opB:
+                    reuse(ctx, opA, opB, opC)
     for i in range(16 if q else 200):
         h = AH(ctx, f'autoref history {i}', ctx.rng.choice([2, 3, 3, 4]), reordering=(i % 2 == 1))
         for j in range(50 if q else 120):
